@@ -1401,3 +1401,29 @@ VARIANTS['C14'] += [
       [('dashlive/scte35/splice_time.py', "            r.get(7, 'reserved')\n            kwargs['pts'] = None\n", "            r.get(6, 'reserved')\n            kwargs['pts'] = None\n")],
       'R14.1', 'SpliceTime'),
 ]
+
+# ---- a regression made in round-seven refactorings (see _layered above)
+REPB = 'dashlive/mpeg/dash/representation.py'
+_layered('C20', 'bucket span runs to the end of the bucket', 'RF20/refactor2.diff',
+         [(BR, "            stop = min(end - bucket, self.buffersize)\n", "            stop = self.buffersize\n")], 'R20.2')
+_layered('C20', 'bucket span starts at the beginning of the bucket', 'RF20/refactor2.diff',
+         [(BR, "            start = max(pos - bucket, 0)\n", "            start = 0\n")], 'R20.2')
+_layered('C09', 'next loop starts where the previous segment ended', 'RF09/refactor2.diff',
+         [(REPB, "                origin_time += ref_duration_tc\n                seg_start_tc = origin_time\n            else:\n                seg_start_tc += duration\n",
+           "                origin_time += ref_duration_tc\n                seg_start_tc += duration\n            else:\n                seg_start_tc += duration\n")], 'R09.4')
+_layered('C15', 'token signer leaves the service out of the signature', 'RF15/refactor1.diff',
+         [(CSRFF, "        self.sig.update(bytes(service, 'utf-8'))\n", "")], 'R15.4')
+_layered('C16', 'video requests consult the audio error list', 'RF16/refactor2.diff',
+         [(MRQ, "        'video': 'videoErrors',\n", "        'video': 'audioErrors',\n")], 'R16.7')
+_layered('C18', 'decode time check skipped when the expectation is 0', 'RF18/refactor1.diff',
+         [(VMS, "        if self.expected_decode_time is None:\n            return\n", "        if not self.expected_decode_time:\n            return\n")], 'R18.4')
+_layered('C14', 'listed event time advanced before the event is listed', 'RF14/refactor3.diff',
+         [('dashlive/server/events/repeating_event_base.py',
+           "        for idx in range(self.count):\n            yield {\n", "        for idx in range(self.count):\n            presentation_time += self.interval\n            yield {\n"),
+          ('dashlive/server/events/repeating_event_base.py',
+           "                'presentationTime': presentation_time,\n            }\n            presentation_time += self.interval\n", "                'presentationTime': presentation_time,\n            }\n")],
+         'R14.5')
+_layered('C04', 'ancestor walk stops after the box itself', 'RF04/refactor2.diff',
+         [(MP4, "            if not atom.parent:\n                break\n            atom = atom.parent\n", "            break\n")], 'R04.3')
+_layered('C07', 'video sets receive the audio parameter set', 'RF05/refactor1.diff',
+         [(MCTX, "self.cgi_params.video)", "self.cgi_params.audio)")], 'R07.4')
